@@ -62,15 +62,19 @@ def run(name, tier="quick", pid=None):
     dst = os.path.join(SEEDED, name)
     meta = json.load(open(os.path.join(dst, "meta.json")))
     pid = pid or meta["property"]
-    rc, out = sh(["git", "-C", "/repo", "status", "--porcelain"])
-    assert out.strip() == "", "/repo is not clean"
-    rc, out = sh(["git", "-C", "/repo", "apply", os.path.join(dst, "patch.diff")])
+    # the patch is applied in a scratch worktree of /repo and the registered check is pointed at it (VERIF_REPO), so that /repo
+    # itself - and anything else running against it - is not disturbed
+    wt = tempfile.mkdtemp(prefix="seedrun_")
+    os.rmdir(wt)
+    rc, out = sh(["git", "-C", "/repo", "worktree", "add", "--detach", wt, "HEAD"])
     assert rc == 0, out
     t0 = time.time()
     try:
-        rc, out = sh([os.path.join(VERIF, "check"), pid, "--tier", tier], cwd=VERIF, timeout=7200)
+        rc, out = sh(["git", "apply", os.path.join(dst, "patch.diff")], cwd=wt)
+        assert rc == 0, out
+        rc, out = sh([os.path.join(VERIF, "check"), pid, "--tier", tier], cwd=VERIF, timeout=7200, env=dict(os.environ, VERIF_REPO=wt))
     finally:
-        sh(["git", "-C", "/repo", "checkout", "--", "."])
+        sh(["git", "-C", "/repo", "worktree", "remove", "--force", wt])
     viol = [l for l in out.splitlines() if l.startswith("VIOLATION")]
     keys = sorted({l.split("clause/key:")[1].split()[0] for l in out.splitlines() if "clause/key:" in l})
     outcome = "detected" if rc == 1 and viol else ("machinery-failure" if rc == 2 else "missed")
